@@ -723,7 +723,8 @@ ApplyMkRet(st, e) ==
 RetFire(st, rid, has, val) ==
   LET r == st.rets[rid]
       s1 == [st EXCEPT !.rets[rid].s = IF has THEN "used" ELSE "dropped"]
-  IN IF r.kind = "plain" THEN [s1 EXCEPT !.expcb = Append(@, <<rid, has, val>>)]
+  IN IF r.kind = "plain" \/ (r.kind = "somedo" /\ has) THEN [s1 EXCEPT !.expcb = Append(@, <<rid, has, val>>)]
+     ELSE IF r.kind = "somedo" THEN s1
      ELSE IF r.kind = "to" \/ has
      THEN AppendMain([s1 EXCEPT !.rets[rid].cbs = @ + 1],
                      [Entry("retcall", rid, r.aid, FALSE, Tag(st)) EXCEPT !.has = has, !.val = val])
@@ -770,6 +771,9 @@ ApplyMkFwd(st, e) == R([st EXCEPT !.fwds = Put(@, e.fid, e.aid)], {})
 
 ApplyFwd(st, e) ==
   IF ~Has(st.fwds, e.fid) THEN R(st, {}) ELSE
+  IF st.fwds[e.fid] = 0
+  THEN \* fwd_do!: the closure is called there and then
+       R([st EXCEPT !.expcb = Append(@, <<-e.fid, TRUE, e.val>>)], {}) ELSE
   R(AppendMain(st, [Entry("fwdcall", e.fid, st.fwds[e.fid], FALSE, Tag(st)) EXCEPT !.val = e.val]), {})
 
 ApplyFCall(st, e) ==
@@ -818,7 +822,7 @@ ApplyDropped(st) ==
 ApplyEnd(st) ==
   LET rbad == UNION { LET r == st.rets[rid] IN
                         B(r.s = "live", "C05", "Ret neither used nor dropped at the end (harness)")
-                        \cup B(r.cbs = 0 /\ ~(r.kind = "someto" /\ r.s = "dropped") /\ ~(r.kind # "plain" /\ st.alive = "dead"),
+                        \cup B(r.cbs = 0 /\ ~(r.kind \in {"someto", "somedo"} /\ r.s = "dropped") /\ ~(r.kind \notin {"plain", "somedo"} /\ st.alive = "dead"),
                                "C05", "Ret handler never invoked")
                       : rid \in DOMAIN st.rets }
       abad == UNION { LET a == st.actors[aid] IN
@@ -956,6 +960,10 @@ Apply1(st, e) ==
     [] e.e = "mkfwd" -> ApplyMkFwd(st, e)
     [] e.e = "fwd" -> ApplyFwd(st, e)
     [] e.e = "fcall" -> ApplyFCall(st, e)
+    [] e.e = "fcb" ->
+         LET ok == st.expcb # << >> /\ st.expcb[1] = <<-e.fid, TRUE, e.val>> IN
+         R([st EXCEPT !.expcb = IF ok THEN Tail(@) ELSE @],
+           B(~ok, "C05", "fwd_do! closure invoked unexpectedly or with the wrong value"))
     [] e.e = "setlogger" -> R([st EXCEPT !.logOn = TRUE, !.filter = FilterOf({e.levels[i] : i \in 1..Len(e.levels)})], {})
     [] e.e = "logfilter" -> R([st EXCEPT !.filter = FilterOf({e.levels[i] : i \in 1..Len(e.levels)})], {})
     [] e.e = "logrec" -> ApplyLogRec(st, e)
